@@ -13,6 +13,11 @@ def check(files, truth, run, rundir):
     except OSError:
         ref = {}
     ref_genes = set(r["gene"] for r in ref.values())
+    ref_gene_locus = {}
+    for r in ref.values():
+        g = ref_gene_locus.setdefault(r["gene"], [r["chr"], r["strand"], r["exons"][0][0], r["exons"][-1][1]])
+        g[2] = min(g[2], r["exons"][0][0])
+        g[3] = max(g[3], r["exons"][-1][1])
     ref_exon_id = {}
     for tid, r in ref.items():
         for (a, b), eid in r["exon_ids"].items():
@@ -60,6 +65,23 @@ def check(files, truth, run, rundir):
                     problems.append("%s%s: novel transcript re-uses reference id %s" % (pre, fn, tid))
                 if tid not in ref and tgene.get(tid) in ref_genes:
                     pass  # novel transcript of a known gene: allowed
+            # a novel transcript filed under a reference gene id must belong to that gene's locus (same chromosome and
+            # strand, overlapping span); otherwise a freshly generated gene id collides with a reference gene id
+            for tid in tcount:
+                gid = tgene.get(tid)
+                if tid in ref or gid not in ref_gene_locus or not tstruct[tid]:
+                    continue
+                c, st, a, b = ref_gene_locus[gid]
+                ex = sorted(tstruct[tid])
+                tchr = None
+                tstrand = None
+                for r in recs:
+                    if r.get("type") == "transcript" and r["attrs"].get("transcript_id") == tid:
+                        tchr, tstrand = r["chr"], r["strand"]
+                if tchr != c or tstrand != st or ex[-1][1] < a or ex[0][0] > b:
+                    problems.append("%s%s: novel transcript %s (%s%s %d-%d) is filed under gene id %s, which the reference uses for a "
+                                    "different locus (%s%s %d-%d): generated gene id collides with a reference id" % (
+                                        pre, fn, tid, tchr, tstrand, ex[0][0], ex[-1][1], gid, c, st, a, b))
             novel_genes = [g for g in gcount if g not in ref_genes]
             for g in novel_genes:
                 if g in ref:
